@@ -122,6 +122,14 @@ theorem inventory_covered :
     Poly.Generated.CodecInventory.c02.map (·.1) = ["Block", "Header", "InvokeCode", "Sig", "Transaction", "TxAttribute"] := by
   decide
 
+/-- (T) the limits and versions the schemas are written with are the constants of the Go source (regenerated on every run). -/
+theorem constants_match :
+    MAX_TX_SIZE = Poly.Generated.CodecInventory.const "MAX_TX_SIZE" ∧
+    TX_MAX_SIG_SIZE = Poly.Generated.CodecInventory.const "TX_MAX_SIG_SIZE" ∧
+    Poly.Generated.CodecInventory.const "CURR_TX_VERSION" = 0 ∧ Poly.Generated.CodecInventory.const "CURR_HEADER_VERSION" = 0 ∧
+    Poly.Generated.CodecInventory.const "MAX_ATTRIBUTES_LEN" = 0 ∧ Poly.Generated.CodecInventory.const "ADDR_LEN" = 20 ∧
+    Poly.Generated.CodecInventory.const "UINT256_SIZE" = 32 := by decide
+
 /-- `TxAttribute` round trip and refusal of an unknown usage byte. -/
 theorem tx_attribute_roundtrip (K : Bytes → Option Bytes) (v : txAttributeTy.Val) (r : Bytes) (h : txAttributeTy.WF K v) :
     txAttributeTy.dec K (txAttributeTy.enc v ++ r) = .ok (v, r) := Ty.dec_enc K txAttributeTy v r h
@@ -144,5 +152,24 @@ example : txTy.WF exK exTx ∧ (txTy.enc exTx).length ≤ MAX_TX_SIZE :=
   ⟨Ty.wfb_sound exK txTy exTx (by decide), by decide⟩
 
 example : headerTy.WF exK exHeader := Ty.wfb_sound exK headerTy exHeader (by decide)
+
+/-- a constant 32-byte "hash" for the non-vacuity examples -/
+def exH : Bytes → Bytes := fun _ => List.replicate 32 7
+
+def exBlockHeader : headerTy.Val :=
+  (((0 : UInt32), (5 : UInt64), (List.replicate 32 1 : Bytes), (List.replicate 32 7 : Bytes), (List.replicate 32 3 : Bytes),
+    (List.replicate 32 4 : Bytes), (6 : UInt32), (7 : UInt32), (8 : UInt64), ([9] : Bytes), (List.replicate 20 0 : Bytes)),
+   ([exKey] : List Bytes), ([[1, 2]] : List Bytes))
+
+/-- the hypotheses of `block_roundtrip` are satisfiable: a block with one transaction whose header carries its root -/
+example : ∃ bv, blockDec exK exH (blockEnc exBlockHeader [exTx] ++ [0xEE]) = .ok (bv, [0xEE]) ∧ bv.header = exBlockHeader ∧
+    bv.txs.map (·.val) = [exTx] := by
+  obtain ⟨bv, h1, h2, h3, _⟩ := block_roundtrip exK exH exBlockHeader [exTx] [0xEE]
+    (Ty.wfb_sound exK headerTy exBlockHeader (by decide)) (by decide)
+    (by intro tx htx; have := List.eq_of_mem_singleton htx; subst this
+        exact ⟨Ty.wfb_sound exK txTy exTx (by decide), by decide⟩)
+    (by simp [txHash])
+    (by simp [Poly.Model.BtcMerkle.btcRoot, txHash, exH, headerTxRoot, exBlockHeader])
+  exact ⟨bv, h1, h2, h3⟩
 
 end Poly.Props.C02
